@@ -8,8 +8,11 @@ CONSTANTS
   MsgHeights = {0, 11, 12}
   StoredPools = 10
   MaxReqs = 2
+  MaxWaiters = 0
+  Expiry = TRUE
   EnableBlackListing = TRUE
   FilterOnPromote = TRUE
   CheckOnHandout = TRUE
+  CheckOnWake = TRUE
 INVARIANTS TypeOK NotPromotedBeforeConfirmed BlacklistedNeverOffered BlockedNotInNodes
 POSTCONDITION Accepted
